@@ -51,6 +51,7 @@ fn main() {
     torn_position_read_exhibit(&mut s);
     // insert_before/after read the reference bar's index BEFORE the MultiState lock is taken: a
     // remove(reference) of another thread can fall in between (docs/C02.md "Findings")
+    stale_index_exhibit(&mut s);
     stale_index_race(&mut s, if a.thorough { 200_000 } else if a.extended { 60_000 } else { 10_000 });
     s.finish();
 }
@@ -162,6 +163,84 @@ fn stale_index_race(s: &mut Session, rounds: u32) {
         } else {
             s.count("unregistered-finding:insert-relative-to-concurrently-removed-bar");
         }
+    }
+    s.oracle_only(desc, true);
+}
+
+/// Deterministic exhibit of the same open finding (the race above stays as the search that finds it
+/// without help).  `insert_after(&a, x)` evaluates `a.index()` FIRST and `internalize` then locks
+/// `x`'s own state for the membership test before it takes the MultiState lock: a thread that holds
+/// `x`'s state lock (inside `x.update(..)`) parks the inserting thread exactly in the window between
+/// the index read and the insertion.  Meanwhile `remove(&a)` [+ `add(y)`] runs to completion.
+/// Outcome on the unchanged tree: (M) with add(y): x is placed after y; (P) without: the `unwrap()`
+/// inside `MultiState::insert` panics with the write lock held and the MultiProgress is poisoned.
+/// No sequential order of the calls has either outcome.  If the inserting thread has not read the
+/// index within the grace period (scheduler), the run shows a sequential outcome and reports nothing.
+fn stale_index_exhibit(s: &mut Session) {
+    use std::sync::mpsc::channel;
+    let mk = |id: &str| {
+        let pb = ProgressBar::with_draw_target(Some(10), ProgressDrawTarget::hidden());
+        pb.set_style(ProgressStyle::with_template(&format!("{id}{{pos}}")).unwrap());
+        pb
+    };
+    let (mut misplaced, mut poisoned) = (0u64, 0u64);
+    for with_add in [true, false] {
+        let spy = Spy::new(20, 50);
+        let mp = MultiProgress::with_draw_target(ProgressDrawTarget::term_like(Box::new(spy.clone())));
+        let a = mp.add(mk("A"));
+        let (x, y) = (mk("X"), mk("Y"));
+        let (locked_tx, locked_rx) = channel::<()>();
+        let (go_tx, go_rx) = channel::<()>();
+        // holder: keeps x's state lock until told to go
+        let holder = {
+            let x = x.clone();
+            std::thread::spawn(move || {
+                x.update(|_| {
+                    let _ = locked_tx.send(());
+                    let _ = go_rx.recv_timeout(std::time::Duration::from_secs(5));
+                })
+            })
+        };
+        let _ = locked_rx.recv_timeout(std::time::Duration::from_secs(5));
+        let t1 = {
+            let (mp, a, x) = (mp.clone(), a.clone(), x.clone());
+            std::thread::spawn(move || catch(|| drop(mp.insert_after(&a, x))))
+        };
+        // grace period: the inserting thread reads a's index (microseconds) and then blocks on x's lock
+        std::thread::sleep(std::time::Duration::from_millis(150));
+        let _ = catch(|| {
+            mp.remove(&a);
+            if with_add {
+                drop(mp.add(y.clone()));
+            }
+        });
+        let _ = go_tx.send(());
+        let _ = holder.join();
+        let r1 = t1.join().unwrap_or_else(|_| Err("thread 1 died".into()));
+        let usable = catch(|| {
+            x.tick();
+            y.tick();
+            mp.println("log").is_ok()
+        });
+        match usable {
+            Err(e) if r1.as_ref().err().map_or(false, |m| m.contains("unwrap()") && m.contains("None")) && e.contains("Poison") => poisoned += 1,
+            Err(_) => {}
+            Ok(_) => {
+                let mut vt = Vt::new(20, 50);
+                vt.feed(&spy.take());
+                let ids: String = vt.rows().into_iter().filter(|r| !r.is_empty() && r != "log").filter_map(|r| r.chars().next()).collect();
+                if r1.is_ok() && with_add && ids == "YX" {
+                    misplaced += 1;
+                }
+            }
+        }
+        let _ = catch(move || drop((a, x, y, mp)));
+    }
+    s.count_n("stale_index_exhibit_misplaced", misplaced);
+    s.count_n("stale_index_exhibit_poisoned", poisoned);
+    let desc = "stale-index exhibit: insert_after(&a, x) parked on x's state lock between the index read and the insertion; remove(&a) [; add(y)] meanwhile".to_string();
+    if misplaced + poisoned > 0 && REPORT_STALE_INDEX_FINDING {
+        s.fail("insert-relative-to-concurrently-removed-bar", format!("deterministic exhibit: {misplaced} of 1 run placed x after y, {poisoned} of 1 run poisoned the MultiState lock"), desc.clone());
     }
     s.oracle_only(desc, true);
 }
